@@ -297,6 +297,11 @@ func (j *JsonConverter) importDeprecatedDirective(reason *string) (ref int) {
 	var args []int
 	if reason != nil {
 		args = append(args, j.doc.ImportArgument(DeprecationReasonArgName, j.importStringValue(*reason)))
+	} else {
+		// deprecated without a reason: leaving the argument out would mean the default reason
+		value := ast.Value{Kind: ast.ValueKindNull}
+		j.doc.AddValue(value)
+		args = append(args, j.doc.ImportArgument(DeprecationReasonArgName, value))
 	}
 
 	return j.doc.ImportDirective(DeprecatedDirectiveName, args)
